@@ -55,6 +55,7 @@ def def_module(idx, d):
              '    fn bump1(lex: &mut L) { let r: &[u8] = AsRef::<[u8]>::as_ref(lex.remainder()); if !r.is_empty() && r[0] < 128 { lex.bump(1) } }']
     for k in used:
         lines.append('    ' + CB_SRC[k].replace('TY', ty))
+        lines.append('    mod as_skip%d { pub(super) use super::cb%d as skip; }' % (k, k))
     for ln in d.source('T').split('\n'):
         lines.append('    ' + ln)
     lines.append('}')
@@ -195,59 +196,83 @@ def build_all(root, configs, release=False):
 
 
 def _run_chunk(binp, ch, line_timeout):
-    """run one zoo process over the requests `ch`; a request that produces no answer within
-    `line_timeout` seconds is marked HANG (process killed, restarted on the remaining requests);
-    a process that dies marks the request it was working on CRASH."""
+    """run zoo processes over the requests `ch` (in order). A request that produces no answer within
+    `line_timeout` seconds is marked HANG (process killed and restarted on the remaining requests); a
+    process that dies marks the request it was working on CRASH. After two hangs/crashes of one definition
+    its remaining requests are answered HANG without being run, so a lexer that spins on every input
+    costs a bounded amount of time."""
     import threading, queue
-    res = []
-    i = 0
+    res = [None] * len(ch)
+    bad = {}
+    pending = list(range(len(ch)))          # indices into ch still to be answered, in order
     restarts = 0
-    while i < len(ch):
+    while pending:
+        # drop requests of definitions already known to be bad
+        keep = []
+        for k in pending:
+            if bad.get(ch[k].split(' ')[0], 0) >= 2:
+                res[k] = ch[k] + ' : HANG'
+            else:
+                keep.append(k)
+        pending = keep
+        if not pending:
+            break
+        if restarts > 400:
+            for k in pending:
+                res[k] = ch[k] + ' : NOTRUN'
+            break
         p = subprocess.Popen([binp], stdin=subprocess.PIPE, stdout=subprocess.PIPE, stderr=subprocess.DEVNULL, text=True, bufsize=1)
         q = queue.Queue()
 
         def reader(pp=p, qq=q):
-            for ln in pp.stdout:
-                qq.put(ln.rstrip('\n'))
+            try:
+                for ln in pp.stdout:
+                    qq.put(ln.rstrip('\n'))
+            except Exception:
+                pass
             qq.put(None)
         threading.Thread(target=reader, daemon=True).start()
 
-        def writer(pp=p, todo=ch[i:]):
+        def writer(pp=p, todo=[ch[k] for k in pending]):
             try:
                 pp.stdin.write('\n'.join(todo) + '\n')
                 pp.stdin.close()
             except Exception:
                 pass
         threading.Thread(target=writer, daemon=True).start()
-        while i < len(ch):
+        pos = 0
+        failed = False
+        while pos < len(pending):
+            k = pending[pos]
             try:
                 ln = q.get(timeout=line_timeout)
             except queue.Empty:
-                p.kill()
-                res.append(ch[i] + ' : HANG')
-                i += 1
-                restarts += 1
+                ln = False
+            if ln is False or ln is None:
+                d = ch[k].split(' ')[0]
+                bad[d] = bad.get(d, 0) + 1
+                res[k] = ch[k] + (' : HANG' if ln is False else ' : CRASH')
+                pos += 1
+                failed = True
                 break
-            if ln is None:
-                # process ended before answering everything
-                res.append(ch[i] + ' : CRASH')
-                i += 1
-                restarts += 1
-                break
-            if ln.startswith(ch[i] + ' :'):
-                res.append(ln)
-                i += 1
-        else:
-            p.wait()
-            break
-        if restarts > 200:
-            while i < len(ch):
-                res.append(ch[i] + ' : NOTRUN')
-                i += 1
+            if ln.startswith(ch[k] + ' :'):
+                res[k] = ln
+                pos += 1
+        try:
+            p.kill()
+        except Exception:
+            pass
+        try:
+            p.wait(timeout=5)
+        except Exception:
+            pass
+        pending = pending[pos:]
+        if failed:
+            restarts += 1
     return res
 
 
-def run_zoo(binp, requests, timeout=600, nproc=4, line_timeout=20):
+def run_zoo(binp, requests, timeout=600, nproc=4, line_timeout=8):
     """requests: list of 'idx mode hex' lines. Returns list of output lines (same order)."""
     if not requests:
         return []
